@@ -330,7 +330,14 @@ fn enforcement_case(cfg: &Config, tmp: &std::path::Path, idx: u64, r: &mut Rng, 
         }
         6 => {
             class = "user-guide-assumption-with-private-predicate";
-            t.ug.push_str("\nassumption: forall X (notdeclared(X) -> X != 7).");
+            if r.chance(1, 2) {
+                t.ug.push_str("\nassumption: forall X (notdeclared(X) -> X != 7).");
+            } else {
+                // a private predicate that one of the programs really has
+                let rules = "prq(X) :- X = 1..2.";
+                if which_side_right { add(&mut t.right, rules) } else { t.left = Either::Left(format!("{left}\n{rules}")) }
+                t.ug.push_str("\nassumption: forall X (prq(X) -> X != 7).");
+            }
         }
         7 => {
             let Some(o) = out1 else { return };
